@@ -236,6 +236,17 @@ theorem permuteSide_relabelF {as : List Int → List Nat} (has : IsArgsort as) (
     rw [es, meshTolOf_relabelF κ hρ, esort]
     rfl
 
+/-- `sort_points ∘ strip_orphan_points` of a relabelled data set, any `argsort` -/
+theorem sortPoints_relabelF {as : List Int → List Nat} (has : IsArgsort as) (bh : BaseHyp h f A B M c)
+    {ρ : List Nat} {κ : String → List Nat} (hρ : ρ.Perm (List.range f.mesh.points.length))
+    (hκ : CellMapsOk f κ) :
+    ∃ I0, sortPointsIdx argsortStable (meshTolOf f.mesh) (baseOf f).mesh = some I0 ∧
+      sortPoints as (meshTolOf (relabelF ρ κ f).mesh) (stripOrphans as (relabelF ρ κ f)) =
+        some (applyCellMaps (pointSorted f I0) κ) := by
+  obtain ⟨τ, hτ, es⟩ := strip_relabelF has bh.wf hρ (hκ.block bh.wf)
+  obtain ⟨I0, hI0, _, _, esort⟩ := sortPoints_view has bh.wf hτ κ (hκ.block bh.wf) bh.hy0 bh.hdist0 bh.conn
+  exact ⟨I0, hI0, by rw [es, meshTolOf_relabelF κ hρ, esort]⟩
+
 /-- **the fully sorted view of a relabelled data set does not depend on the relabelling or on the
     `argsort` routines** -/
 theorem sorted_relabelF {as as' : List Int → List Nat} (has : IsArgsort as) (has' : IsArgsort as')
